@@ -161,6 +161,14 @@ enum Op {
     LateLlgr {
         fam: usize,
     },
+    /// The restart timer elapses by itself: the handler runs and, unlike a forced
+    /// fire, nobody takes the sender out of `gr_restart_timer` -- it stays there
+    /// with its receiver gone, as after `timeout()` returned `Elapsed`.
+    ExpireRestart,
+    /// The same for one family's LLGR timer: the dead sender stays in `llgr_family_timers`.
+    ExpireLlgr {
+        fam: usize,
+    },
 }
 
 impl Op {
@@ -187,6 +195,8 @@ impl Op {
             Op::ForceDownIdle => "force-down",
             Op::LateRestart => "late-restart-expiry",
             Op::LateLlgr { .. } => "late-llgr-expiry",
+            Op::ExpireRestart => "restart-timer-natural",
+            Op::ExpireLlgr { .. } => "llgr-timer-natural",
         }
     }
 }
@@ -311,9 +321,10 @@ async fn wait_quiet(ctx: &Arc<std::sync::Mutex<PeerContext>>, base: usize) -> Re
     loop {
         let armed = {
             let c = ctx.lock().unwrap();
-            c.gr_restart_timer.is_some() as usize
-                + c.llgr_family_timers.len()
-                + c.rtc_eor_timer.is_some() as usize
+            // a sender whose receiver is gone (timer elapsed by itself) has no task any more
+            c.gr_restart_timer.as_ref().is_some_and(|t| !t.is_closed()) as usize
+                + c.llgr_family_timers.values().filter(|t| !t.is_closed()).count()
+                + c.rtc_eor_timer.as_ref().is_some_and(|t| !t.is_closed()) as usize
         };
         let strong = Arc::strong_count(ctx);
         if strong == base + armed {
@@ -479,6 +490,11 @@ struct Model {
     retained_stale: bool,
     /// ... and a later step was judged while they (or their absence) mattered
     judged_after_retention: bool,
+    /// helper cycles started so far (a cycle starts with a drop that enters helper mode)
+    cycle: u32,
+    in_cycle: bool,
+    /// how the first cycle ended
+    first_end: Option<&'static str>,
 }
 
 impl Model {
@@ -489,6 +505,9 @@ impl Model {
             epochs: 0,
             retained_stale: false,
             judged_after_retention: false,
+            cycle: 0,
+            in_cycle: false,
+            first_end: None,
         }
     }
 
@@ -947,7 +966,92 @@ impl Model {
         if post.paths.iter().any(|p| p.llgr_stale) {
             st.add("obs:llgr-stale-paths-seen");
         }
+        self.track_cycles(ev, pre, post, st);
         out
+    }
+
+    /// Coverage bookkeeping only (no verdicts): which helper cycle of the peer this
+    /// is, how the first one ended, and what the second one got to do.  Everything the
+    /// helper keeps per peer (restart-timer slot, per-family LLGR timer map, GrState,
+    /// the GR/LLGR parameters remembered for the next drop) outlives a cycle.
+    fn track_cycles(&mut self, ev: &Ev, pre: &Obs, post: &Obs, st: &mut Stats) {
+        let timers_post = post.gr_timer || post.llgr_timers != 0;
+        let mut ended: Option<&'static str> = None;
+        let mut llgr_entered = false;
+        match ev {
+            Ev::Dropped { .. } => {
+                if post.restarting && timers_post {
+                    if !self.in_cycle {
+                        self.cycle += 1;
+                        self.in_cycle = true;
+                        if self.cycle == 2 {
+                            st.add("cycle2:entered");
+                            st.add(&format!("cycle2:entered-after:{}", self.first_end.unwrap_or("?")));
+                        } else if self.cycle > 2 {
+                            st.add("cycle3+:entered");
+                        }
+                    }
+                    if post.llgr_timers != 0 && !post.gr_timer && pre.llgr_timers == 0 {
+                        llgr_entered = true;
+                    }
+                } else if self.in_cycle {
+                    ended = Some("non-gr-drop");
+                }
+            }
+            Ev::RestartFired => {
+                if self.cycle >= 2 && self.in_cycle {
+                    st.add("cycle2:restart-expiry");
+                }
+                if post.llgr_timers != 0 && pre.llgr_timers == 0 {
+                    llgr_entered = true;
+                } else if self.in_cycle && !timers_post && self.live.is_none() {
+                    ended = Some("restart-expiry-without-llgr");
+                }
+            }
+            Ev::LlgrFired { fam } => {
+                if self.cycle >= 2
+                    && pre.paths.iter().any(|p| p.fam == *fam && self.stale_like(p))
+                    && !post.paths.iter().any(|p| p.fam == *fam && self.stale_like(p))
+                {
+                    st.add("cycle2:llgr-expiry-purged");
+                }
+                if self.in_cycle && !timers_post && self.live.is_none() {
+                    ended = Some("llgr-expiry");
+                }
+            }
+            Ev::Established { .. } => {
+                if self.in_cycle {
+                    ended = Some(if pre.llgr_timers != 0 { "reconnect-during-llgr" } else { "eor" });
+                }
+            }
+            Ev::Eor { fam } => {
+                if self.cycle >= 2
+                    && pre.paths.iter().any(|p| p.fam == *fam && self.stale_like(p))
+                    && !post.paths.iter().any(|p| p.fam == *fam && self.stale_like(p))
+                {
+                    st.add("cycle2:eor-purged");
+                }
+            }
+            Ev::ForcedDownIdle => {
+                if self.in_cycle && !timers_post {
+                    ended = Some("forced-down");
+                }
+            }
+            _ => {}
+        }
+        if llgr_entered && self.cycle >= 2 {
+            st.add("cycle2:llgr-period-entered");
+            st.add(&format!("cycle2:llgr-period-entered-after:{}", self.first_end.unwrap_or("?")));
+        }
+        if let Some(kind) = ended {
+            self.in_cycle = false;
+            if self.cycle == 1 && self.first_end.is_none() {
+                self.first_end = Some(kind);
+                st.add(&format!("cycle1-end:{}", kind));
+            } else if self.cycle >= 2 {
+                st.add(&format!("cycle2-end:{}", kind));
+            }
+        }
     }
 }
 
@@ -1432,6 +1536,8 @@ impl L1World {
             Op::LateRestart | Op::LateLlgr { .. } => {
                 late_expiry(op, &self.ctx, &self.tables, self.addr).await
             }
+            Op::ExpireRestart => expire_restart(&self.ctx),
+            Op::ExpireLlgr { fam } => expire_llgr(&self.ctx, *fam),
         }
     }
 }
@@ -1463,6 +1569,44 @@ fn fire_restart(ctx: &Arc<std::sync::Mutex<PeerContext>>) -> StepResult {
     }
     c.fire_gr_timer();
     Ok(Some(Ev::RestartFired))
+}
+
+/// a sender whose receiver is gone: what a slot holds after its timer elapsed by itself
+fn dead_sender() -> tokio::sync::oneshot::Sender<()> {
+    let (tx, rx) = tokio::sync::oneshot::channel::<()>();
+    drop(rx);
+    tx
+}
+
+/// Natural expiry of the restart timer.  The timer task is woken through its own
+/// channel (the advertised 4095 s cannot be waited for); what distinguishes a
+/// natural expiry from `fire_gr_timer` is reproduced: the slot keeps a sender
+/// whose receiver is gone while the handler runs and afterwards.
+fn expire_restart(ctx: &Arc<std::sync::Mutex<PeerContext>>) -> StepResult {
+    let mut c = ctx.lock().unwrap();
+    if !c.gr_restart_timer.as_ref().is_some_and(|t| !t.is_closed()) {
+        return Ok(None);
+    }
+    if let Some(tx) = c.gr_restart_timer.take() {
+        let _ = tx.send(());
+    }
+    c.gr_restart_timer = Some(dead_sender());
+    Ok(Some(Ev::RestartFired))
+}
+
+fn expire_llgr(ctx: &Arc<std::sync::Mutex<PeerContext>>, fam: usize) -> StepResult {
+    let mut c = ctx.lock().unwrap();
+    if !c
+        .llgr_family_timers
+        .get(&FAMS[fam])
+        .is_some_and(|t| !t.is_closed())
+    {
+        return Ok(None);
+    }
+    if let Some(tx) = c.llgr_family_timers.insert(FAMS[fam], dead_sender()) {
+        let _ = tx.send(());
+    }
+    Ok(Some(Ev::LlgrFired { fam }))
 }
 
 fn fire_llgr(ctx: &Arc<std::sync::Mutex<PeerContext>>, fam: usize) -> StepResult {
@@ -2135,6 +2279,8 @@ impl<'a> L2World<'a> {
             Op::LateRestart | Op::LateLlgr { .. } => {
                 late_expiry(op, &self.ctx, &self.tables, self.addr).await
             }
+            Op::ExpireRestart => expire_restart(&self.ctx),
+            Op::ExpireLlgr { fam } => expire_llgr(&self.ctx, *fam),
         }
     }
 }
@@ -2271,11 +2417,15 @@ async fn run_history(
                     }
             );
             let replaced = matches!(op, Op::Drop { .. });
-            if pre.gr_timer && !fires_all && !matches!(op, Op::FireRestart) && (!post.gr_timer || replaced) {
+            if pre.gr_timer
+                && !fires_all
+                && !matches!(op, Op::FireRestart | Op::ExpireRestart)
+                && (!post.gr_timer || replaced)
+            {
                 late_restart_credit += 1;
             }
             for f in 0..2 {
-                let fired = matches!(op, Op::FireLlgr { fam } if *fam == f);
+                let fired = matches!(op, Op::FireLlgr { fam } | Op::ExpireLlgr { fam } if *fam == f);
                 if has(pre.llgr_timers, f) && !fires_all && !fired && (!has(post.llgr_timers, f) || replaced) {
                     late_llgr_credit[f] += 1;
                 }
@@ -2585,6 +2735,99 @@ fn gen_late_cycle(rng: &mut Rng, layer: u8) -> (LocalCfg, Vec<Op>) {
     (cfg, ops)
 }
 
+/// Directed skeleton: two (sometimes three) complete helper cycles of the same peer.
+/// The first cycle ends in one of the ways a cycle can end (LLGR timers elapse, End-of-RIB
+/// after a reconnect in the restart period, reconnect during the LLGR period, restart
+/// timer elapses without LLGR, non-GR drop of the re-established session, forced down);
+/// then the peer comes back, announces again, drops again and the second cycle runs to
+/// its own end.  State that outlives a cycle (timer slots / map entries of timers that
+/// fired, GrState, negotiated parameters) must not disturb the next one.
+fn gen_two_cycles(rng: &mut Rng, layer: u8) -> (LocalCfg, Vec<Op>) {
+    let cfg = LocalCfg {
+        gr: *rng.pick(&[0b11u8, 0b11, 0b11, 0b01, 0]),
+        nbit: rng.bool(),
+        llgr: *rng.pick(&[0b11u8, 0b11, 0b01, 0b10, 0]),
+        shards: *rng.pick(&[1usize, 2, 4]),
+        prefix_limit: false,
+    };
+    let mk_spec = |rng: &mut Rng| CapSpec {
+        mp: 0b11,
+        gr: if cfg.gr != 0 && rng.chance(9, 10) {
+            Some((*rng.pick(&[0b11u8, 0b11, 0b11, 0b01, 0b10]), rng.bool(), 0))
+        } else {
+            None
+        },
+        llgr: if rng.chance(3, 4) { *rng.pick(&[0b11u8, 0b11, 0b01, 0b10]) } else { 0 },
+    };
+    let spec = mk_spec(rng);
+    let restart = |rng: &mut Rng| if rng.chance(3, 4) { Op::ExpireRestart } else { Op::FireRestart };
+    let llgr = |rng: &mut Rng, fam: usize| if rng.chance(3, 4) { Op::ExpireLlgr { fam } } else { Op::FireLlgr { fam } };
+    let session = |rng: &mut Rng, ops: &mut Vec<Op>, spec: CapSpec, eor: bool| {
+        ops.push(Op::Connect { spec, outcome: ConnOutcome::Full });
+        for f in 0..2 {
+            for p in 0..rng.range(1, 2) as u8 {
+                ops.push(Op::Announce { fam: f, pfx: p, kind: gen_kind(rng) });
+            }
+        }
+        if eor {
+            let mut fams = [0usize, 1];
+            rng.shuffle(&mut fams);
+            for f in fams {
+                ops.push(Op::Eor { fam: f });
+            }
+        }
+    };
+    let mut ops = Vec::new();
+    session(rng, &mut ops, spec, true);
+    let cycles = if rng.chance(1, 4) { 3 } else { 2 };
+    let mut cur = spec;
+    for c in 0..cycles {
+        ops.push(Op::Drop { how: if rng.chance(5, 6) { DropHow::TcpRst } else { DropHow::TcpFin } });
+        if rng.chance(1, 6) {
+            ops.push(Op::Connect { spec: cur, outcome: if rng.bool() { ConnOutcome::DieAfterOpen } else { ConnOutcome::DieBeforeOpen } });
+        }
+        // how this cycle ends; the last one mostly runs the timers to their end
+        let kind = if c + 1 == cycles { rng.below(4) } else { rng.below(8) };
+        match kind {
+            0..=2 => {
+                // timers run out: restart timer, then every LLGR timer
+                ops.push(restart(rng));
+                let mut fams = [0usize, 1];
+                rng.shuffle(&mut fams);
+                for f in fams {
+                    ops.push(llgr(rng, f));
+                }
+            }
+            3 | 4 => {
+                // reconnect in the LLGR period (or after the purge when there is no LLGR)
+                ops.push(restart(rng));
+                if rng.bool() {
+                    let f = rng.usize(2);
+                    ops.push(llgr(rng, f));
+                }
+            }
+            5 => {} // reconnect in the restart period
+            6 => {
+                // re-established, then a drop that must not enter helper mode
+                let eor = rng.bool();
+                session(rng, &mut ops, cur, eor);
+                ops.push(Op::Drop { how: *rng.pick(&[DropHow::Notif(6, 9), DropHow::ApiShutdown, DropHow::Notif(3, 1)]) });
+            }
+            _ => ops.push(Op::ForceDownIdle),
+        }
+        if c + 1 < cycles {
+            if rng.chance(1, 4) {
+                cur = mk_spec(rng);
+            }
+            // the peer is back: its routes again, End-of-RIB mostly
+            let eor = rng.chance(5, 6);
+            session(rng, &mut ops, cur, eor);
+        }
+    }
+    let _ = layer;
+    (cfg, ops)
+}
+
 fn gen_ops(rng: &mut Rng, layer: u8, len: usize) -> Vec<Op> {
     let mut ops = Vec::new();
     let first = gen_spec(rng, None);
@@ -2657,8 +2900,20 @@ fn gen_ops(rng: &mut Rng, layer: u8, len: usize) -> Vec<Op> {
                     spec: gen_spec(rng, Some(&last_spec)),
                     outcome: ConnOutcome::DieAfterOpen,
                 },
-                64..=76 => Op::FireRestart,
-                77..=88 => Op::FireLlgr { fam: rng.usize(2) },
+                64..=76 => {
+                    if rng.bool() {
+                        Op::ExpireRestart
+                    } else {
+                        Op::FireRestart
+                    }
+                }
+                77..=88 => {
+                    if rng.bool() {
+                        Op::ExpireLlgr { fam: rng.usize(2) }
+                    } else {
+                        Op::FireLlgr { fam: rng.usize(2) }
+                    }
+                }
                 89..=91 => Op::LateRestart,
                 92..=93 => Op::LateLlgr { fam: rng.usize(2) },
                 _ => Op::ForceDownIdle,
@@ -2859,9 +3114,10 @@ fn exh_alphabet(spec: &CapSpec) -> Vec<(&'static str, Vec<Op>)> {
         ),
         ("E-v4", vec![Op::Eor { fam: 0 }]),
         ("E-v6", vec![Op::Eor { fam: 1 }]),
-        ("T", vec![Op::FireRestart]),
-        ("L-v4", vec![Op::FireLlgr { fam: 0 }]),
-        ("L-v6", vec![Op::FireLlgr { fam: 1 }]),
+        // the timers elapse by themselves (forced firing is what the letter F does)
+        ("T", vec![Op::ExpireRestart]),
+        ("L-v4", vec![Op::ExpireLlgr { fam: 0 }]),
+        ("L-v6", vec![Op::ExpireLlgr { fam: 1 }]),
         ("F", vec![Op::ForceDownIdle]),
         ("late-T", vec![Op::LateRestart]),
         ("late-L-v4", vec![Op::LateLlgr { fam: 0 }]),
@@ -3271,6 +3527,80 @@ fn part_l1x(ctl: &Ctl, rep: &mut Report) {
     }
 }
 
+/// Directed exhaustive part: the first helper cycle is fixed (one prefix per way it can
+/// end), every sequence of `depth` letters is enumerated for what follows.  Reaches the
+/// second LLGR period of GR+LLGR configurations, which plain `l1x` would need depth 8 for.
+fn part_l1c(ctl: &Ctl, rep: &mut Report) {
+    let depth = ctl.params.get_u64("depth", if ctl.params.thorough() { 4 } else { 3 }) as usize;
+    let nshards = ctl.params.get_u64("nshards", 1).max(1) as usize;
+    let me = shard_index(ctl.params) % nshards;
+    let first_cycles: [(&str, &[&str]); 7] = [
+        ("timers-run-out", &["D-tcp", "T", "L-v4", "L-v6", "R-same", "A", "E-v4", "E-v6"]),
+        ("one-llgr-timer-runs-out", &["D-tcp", "T", "L-v4", "R-same", "A", "E-v4", "E-v6"]),
+        ("eor", &["D-tcp", "R-same", "A", "E-v4", "E-v6"]),
+        ("reconnect-after-restart-expiry", &["D-tcp", "T", "R-same", "A", "E-v4", "E-v6"]),
+        ("reconnect-no-eor", &["D-tcp", "T", "R-same", "A"]),
+        ("non-gr-drop", &["D-tcp", "R-same", "D-hard-reset", "R-same", "A"]),
+        ("forced-down", &["D-tcp", "F", "R-same", "A"]),
+    ];
+    let mut item = 0usize;
+    let mut complete = true;
+    'outer: for (cname, cfg, spec) in exh_configs() {
+        let alpha = exh_alphabet(&spec);
+        let idx = |name: &str| alpha.iter().position(|(n, _)| *n == name).expect("letter");
+        for (kname, letters) in first_cycles.iter() {
+            let mut prefix = exh_prelude(&spec);
+            for l in letters.iter() {
+                prefix.extend(alpha[idx(l)].1.iter().cloned());
+            }
+            for first in 0..alpha.len() {
+                item += 1;
+                if (item - 1) % nshards != me {
+                    continue;
+                }
+                let mut stack: Vec<Vec<usize>> = vec![vec![first]];
+                while let Some(seq) = stack.pop() {
+                    if !rep.in_budget() {
+                        complete = false;
+                        break 'outer;
+                    }
+                    let mut ops = prefix.clone();
+                    let mut tail_from = ops.len();
+                    for (k, li) in seq.iter().enumerate() {
+                        if k + 1 == seq.len() {
+                            tail_from = ops.len();
+                        }
+                        ops.extend(alpha[*li].1.iter().cloned());
+                    }
+                    let origin = format!(
+                        "l1c cfg={} first-cycle={} then letters={}",
+                        cname,
+                        kname,
+                        seq.iter().map(|i| alpha[*i].0).collect::<Vec<_>>().join(",")
+                    );
+                    let (applied, violated) = evaluate(ctl, rep, 1, &cfg, &ops, 0, &origin, tail_from);
+                    if !applied {
+                        continue;
+                    }
+                    rep.count(&format!("l1c:sequences:d{}", seq.len()));
+                    if !violated && seq.len() < depth {
+                        for nx in (0..alpha.len()).rev() {
+                            let mut s2 = seq.clone();
+                            s2.push(nx);
+                            stack.push(s2);
+                        }
+                    }
+                }
+            }
+        }
+    }
+    if complete {
+        rep.count("l1c:complete-shards");
+    } else {
+        rep.count("l1c:budget-cut");
+    }
+}
+
 fn part_random(ctl: &Ctl, rep: &mut Report, layer: u8) {
     let lname = if layer == 1 { "l1r" } else { "l2" };
     let count = ctl.params.get_u64(
@@ -3295,6 +3625,9 @@ fn part_random(ctl: &Ctl, rep: &mut Report, layer: u8) {
         } else if profile < 4 {
             rep.count(&format!("{}:profile:late-cycle", lname));
             gen_late_cycle(&mut rng, layer)
+        } else if profile < 6 {
+            rep.count(&format!("{}:profile:two-cycles", lname));
+            gen_two_cycles(&mut rng, layer)
         } else {
             rep.count(&format!("{}:profile:free", lname));
             let cfg = gen_cfg(&mut rng, layer);
@@ -3346,6 +3679,9 @@ fn run() {
         };
         if l1_ok && (part == "l1x" || part == "all") {
             part_l1x(&ctl, &mut rep);
+        }
+        if l1_ok && (part == "l1c" || part == "all") {
+            part_l1c(&ctl, &mut rep);
         }
         if l1_ok && (part == "l1r" || part == "all") {
             part_random(&ctl, &mut rep, 1);
